@@ -185,6 +185,10 @@ pub fn catalogue() -> Vec<Problem> {
         Problem { name: "cost", blocks: vec![CosT], rotated: false, u0: vec![0.7] },
         Problem { name: "relax", blocks: vec![Relax], rotated: false, u0: vec![3.0] },
         Problem { name: "rest", blocks: vec![Rest], rotated: false, u0: vec![1.25] },
+        // at rest exactly at the origin (every component 0.0): relative quantities such as |update| / |state| are 0/0 there
+        Problem { name: "rest-at-origin", blocks: vec![Rest], rotated: false, u0: vec![0.0] },
+        Problem { name: "decay-at-origin", blocks: vec![Lin(-2.0)], rotated: false, u0: vec![0.0] },
+        Problem { name: "oscillator-at-origin", blocks: vec![Osc(1.0)], rotated: false, u0: vec![0.0, 0.0] },
         Problem { name: "bernoulli", blocks: vec![Bernoulli], rotated: false, u0: vec![1.0] },
         Problem { name: "osc1", blocks: vec![Osc(1.0)], rotated: false, u0: vec![1.0, 0.0] },
         // unrotated direct sums: the components have very different (or exactly zero) local errors, so an error
